@@ -408,3 +408,172 @@ Example C02_rle_nonvacuous :
   lin_IndexSelect32 (c02_expand_rle [(3, 2^64 - 1)]) = [0; 32; 64; 96; 128; 160] /\
   c02_index_rle [0; 32; 64; 96; 128; 160] = [(1, 0); (5, 32)].
 Proof. vm_compute. intuition congruence. Qed.
+
+(** * widened: the UNEXPORTED select helpers of bitmap/select.go
+
+    [select32single] (single-result variant of Select32), [indexSelectU64] (the eight cumulative byte popcounts of
+    one word packed into a uint64) and [selectU64Indexed] (select inside one word through that packed index) are
+    not reachable through the exported API; the harness reaches them through the build-tag-guarded hook file
+    bitmap/verif_export.go.  Models: Model/SelectU64.v (uint64 arithmetic with explicit wraps).  Vocabulary
+    (Spec/SelectU64Spec.v): positions of 1-bits ([all_ones], [ones (bits 64 w)]) and [rank1].  Every theorem about
+    the two uint64 helpers holds for EVERY word [0 <= w < 2^64]. *)
+From Low Require Import Lib.MachInt Model.SelectU64 Spec.SelectU64Spec Proofs.SelectU64Index Proofs.SelectU64Indexed
+  Proofs.SelectU64Single Proofs.SelectU64Misc.
+
+(** select32single with the index IndexSelect32 built: the position of the [i]-th 1-bit *)
+Theorem C02_select32single : forall ws sidx i, words_ok ws -> IndexSelect32 ws = Some sidx ->
+  0 <= i < zlen (all_ones ws) ->
+  select32single ws sidx i = Some (fst (spec_Select ws i)).
+Proof. exact select32single_domain. Qed.
+Print Assumptions C02_select32single.
+
+(** ... which is the first component of what Select32 returns on the same arguments *)
+Theorem C02_select32single_is_fst_Select32 : forall ws sidx i, words_ok ws -> IndexSelect32 ws = Some sidx ->
+  0 <= i < zlen (all_ones ws) ->
+  select32single ws sidx i = option_map fst (Select32 ws sidx i).
+Proof. exact select32single_fst_Select32. Qed.
+Print Assumptions C02_select32single_is_fst_Select32.
+
+(** for EVERY [i] (the function is total): -1 below the domain, [64 * len] above it — by the early return when
+    [i >> 5] is beyond the index, or because the word loop runs off the end of the bitmap *)
+Theorem C02_select32single_total : forall ws sidx i, words_ok ws -> IndexSelect32 ws = Some sidx ->
+  select32single ws sidx i = Some (spec_select32single ws i).
+Proof. exact select32single_indexed. Qed.
+Print Assumptions C02_select32single_total.
+
+Theorem C02_select32single_sentinels : forall ws sidx i, words_ok ws -> IndexSelect32 ws = Some sidx ->
+  (i < 0 -> select32single ws sidx i = Some (-1)) /\
+  (zlen (all_ones ws) <= i -> select32single ws sidx i = Some (64 * zlen ws)).
+Proof. exact select32single_sentinels. Qed.
+Print Assumptions C02_select32single_sentinels.
+
+(** under the size hypothesis [64 * len(words) < 2^31] the result (position or sentinel) fits Go's int32, so the
+    unbounded-[Z] statements above are statements about the int32 result *)
+Theorem C02_select32single_fits_int32 : forall ws i, 64 * zlen ws < 2 ^ 31 ->
+  -1 <= spec_select32single ws i <= 64 * zlen ws /\ - 2 ^ 31 <= spec_select32single ws i < 2 ^ 31.
+Proof. exact spec_select32single_int32. Qed.
+Print Assumptions C02_select32single_fits_int32.
+
+(** its in-word search (three halvings, one table-index expression) finds the [k]-th 1-bit of ANY word *)
+Theorem C02_single_in_word : forall w (k : nat) v base, 0 <= w ->
+  nth_error (ones (bits 64 w)) k = Some v -> single_in_word w (Z.of_nat k) base = Some (base + v).
+Proof. exact single_in_word_spec. Qed.
+Print Assumptions C02_single_in_word.
+
+(** the run-length-encoded operation [bitmap.select32single/rle] evaluates the linear [lin_Select]: it is the model's output *)
+Theorem C02_rle_run_is_model_select32single : forall ws sidx i, words_ok ws -> IndexSelect32 ws = Some sidx ->
+  0 <= i < zlen (all_ones ws) ->
+  option_map fst (lin_Select ws i) = select32single ws sidx i.
+Proof. exact lin_Select_is_select32single. Qed.
+Print Assumptions C02_rle_run_is_model_select32single.
+
+Example C02_select32single_nonvacuous :
+  words_ok c02_ex /\ IndexSelect32 c02_ex = Some [0; 32] /\ zlen (all_ones c02_ex) = 35 /\
+  select32single c02_ex [0; 32] 31 = Some 31 /\ select32single c02_ex [0; 32] 32 = Some 32 /\
+  select32single c02_ex [0; 32] 33 = Some 191 /\ select32single c02_ex [0; 32] 34 = Some 192 /\
+  select32single c02_ex [0; 32] 35 = Some 256 /\ select32single c02_ex [0; 32] 64 = Some 256 /\
+  select32single c02_ex [0; 32] (-1) = Some (-1) /\
+  Select32 c02_ex [0; 32] 33 = Some (191, 192) /\ single_in_word (2^63) 0 128 = Some 191 /\
+  option_map fst (lin_Select c02_ex 33) = Some 191.
+Proof.
+  split; [apply words_okb_ok; reflexivity|].
+  vm_compute. intuition congruence.
+Qed.
+
+(** indexSelectU64, every word: byte field [j] (0 = least significant) is 0x80 + the number of 1-bits among the
+    lowest [8 (j + 1)] bits *)
+Theorem C02_indexSelectU64_fields : forall w (j : nat), 0 <= w < 2 ^ 64 -> (j < 8)%nat ->
+  (indexSelectU64 w / 2 ^ (8 * Z.of_nat j)) mod 2 ^ 8 = 128 + rank1 (bits 64 w) (8 * (j + 1)).
+Proof. exact indexSelectU64_field. Qed.
+Print Assumptions C02_indexSelectU64_fields.
+
+(** ... and nothing else: the whole 64-bit value *)
+Theorem C02_indexSelectU64 : forall w, 0 <= w < 2 ^ 64 -> indexSelectU64 w = spec_indexSelectU64 w.
+Proof. exact indexSelectU64_spec. Qed.
+Print Assumptions C02_indexSelectU64.
+
+Theorem C02_indexSelectU64_range : forall w, 0 <= w < 2 ^ 64 -> 0 <= indexSelectU64 w < 2 ^ 64.
+Proof. exact indexSelectU64_range. Qed.
+Print Assumptions C02_indexSelectU64_range.
+
+Example C02_indexSelectU64_nonvacuous :
+  indexSelectU64 0 = 0x8080808080808080 /\ indexSelectU64 (2^64 - 1) = 0xc0b8b0a8a0989088 /\
+  indexSelectU64 (2^63 + 5) = 0x8382828282828282 /\ spec_indexSelectU64 (2^63 + 5) = 0x8382828282828282 /\
+  (indexSelectU64 (2^63 + 5) / 2 ^ (8 * Z.of_nat 7)) mod 2 ^ 8 = 128 + 3 /\ rank1 (bits 64 (2^63 + 5)) 64 = 3 /\
+  (* the multiplication really wraps: 8 bytes of 8 sum to 0x...4038302820181008 * only after the high half is cut *)
+  8 * 0x0101010101010101 * 0x0101010101010101 >= 2 ^ 64.
+Proof. vm_compute. intuition congruence. Qed.
+
+(** selectU64Indexed with the index of the same word, every word, every [k] below its number of 1-bits:
+    (position of the [k]-th 1-bit, 0) *)
+Theorem C02_selectU64Indexed : forall w k, 0 <= w < 2 ^ 64 -> 0 <= k < zlen (ones (bits 64 w)) ->
+  selectU64Indexed w (indexSelectU64 w) k = Some (nth (Z.to_nat k) (ones (bits 64 w)) 0, 0).
+Proof. exact selectU64Indexed_exact. Qed.
+Print Assumptions C02_selectU64Indexed.
+
+(** the same with the domain written with the model of math/bits.OnesCount64, and the value as the spec names it *)
+Theorem C02_selectU64Indexed_popcount : forall w k, 0 <= w < 2 ^ 64 -> 0 <= k < popcount w ->
+  selectU64Indexed w (indexSelectU64 w) k = Some (spec_selectU64 w k).
+Proof. exact selectU64Indexed_spec. Qed.
+Print Assumptions C02_selectU64Indexed_popcount.
+
+(** what that position is: inside the word, a 1-bit, with exactly [k] 1-bits below it (select is inverse to rank);
+    the second result is 0 *)
+Theorem C02_selectU64Indexed_position : forall w k p q, 0 <= w < 2 ^ 64 -> 0 <= k < zlen (ones (bits 64 w)) ->
+  selectU64Indexed w (indexSelectU64 w) k = Some (p, q) ->
+  0 <= p < 64 /\ Z.testbit w p = true /\ rank1 (bits 64 w) (Z.to_nat p) = k /\ q = 0.
+Proof. exact selectU64Indexed_position. Qed.
+Print Assumptions C02_selectU64Indexed_position.
+
+(** the two in-word searches of the package agree: it is Select32's first result on the one-word bitmap *)
+Theorem C02_selectU64Indexed_is_Select32 : forall w sidx k, 0 <= w < 2 ^ 64 -> IndexSelect32 [w] = Some sidx ->
+  0 <= k < zlen (ones (bits 64 w)) ->
+  option_map fst (selectU64Indexed w (indexSelectU64 w) k) = option_map fst (Select32 [w] sidx k).
+Proof. exact selectU64Indexed_is_Select32. Qed.
+Print Assumptions C02_selectU64Indexed_is_Select32.
+
+(** OUTSIDE the domain, as the code has it (a theorem about the model; the implementation is never compared there):
+    for [popcount w <= k <= 127] the table is read at the unrelated index [k - popcount w] and 64 is added — a
+    "position" in [64, 72], never inside the word *)
+Theorem C02_selectU64Indexed_beyond_model : forall w k, 0 <= w < 2 ^ 64 -> popcount w <= k <= 127 ->
+  let v := nth (Z.to_nat (k - popcount w)) select8Lookup 0 in
+  selectU64Indexed w (indexSelectU64 w) k = Some (64 + v, 0) /\ 0 <= v <= 8.
+Proof. exact selectU64Indexed_beyond. Qed.
+Print Assumptions C02_selectU64Indexed_beyond_model.
+
+Example C02_selectU64Indexed_nonvacuous :
+  zlen (ones (bits 64 (2^63 + 5))) = 3 /\ popcount (2^63 + 5) = 3 /\
+  selectU64Indexed (2^63 + 5) (indexSelectU64 (2^63 + 5)) 0 = Some (0, 0) /\
+  selectU64Indexed (2^63 + 5) (indexSelectU64 (2^63 + 5)) 1 = Some (2, 0) /\
+  selectU64Indexed (2^63 + 5) (indexSelectU64 (2^63 + 5)) 2 = Some (63, 0) /\
+  selectU64Indexed (2^63 + 5) (indexSelectU64 (2^63 + 5)) 3 = Some (72, 0) /\
+  selectU64Indexed (2^64 - 1) (indexSelectU64 (2^64 - 1)) 63 = Some (63, 0) /\
+  selectU64Indexed (2^64 - 1) (indexSelectU64 (2^64 - 1)) 40 = Some (40, 0) /\
+  Z.testbit (2^63 + 5) 63 = true /\ rank1 (bits 64 (2^63 + 5)) 63 = 2 /\
+  Select32 [2^63 + 5] [0] 2 = Some (63, 64).
+Proof. vm_compute. intuition congruence. Qed.
+
+(** the rows of the byte table as [bitmap.select8Lookup/row] reads them: all 256 *)
+Theorem C02_select8Lookup_rows : forall b, 0 <= b < 256 ->
+  firstn 8 (skipn (Z.to_nat (8 * b)) select8Lookup) = spec_select8_row b.
+Proof. exact select8Lookup_row. Qed.
+Print Assumptions C02_select8Lookup_rows.
+
+(** * sessions on ONE held buffer ([bitmap.Select32R64/session], Run/C02.v): queries interleaved with in-place writes
+      followed by a re-index, histories of any length: the model's observations are the specification's, step by step *)
+From Low Require Import Lib.Val.
+From Low Require Run.C02.
+
+Theorem C02_session_model_is_spec : forall steps ws, words_ok ws ->
+  ~ In VBad (Run.C02.c02_session_run Run.C02.c02_session_model_sel ws steps) ->
+  Run.C02.c02_session_run Run.C02.c02_session_model_sel ws steps =
+  Run.C02.c02_session_run Run.C02.c02_session_spec_sel ws steps.
+Proof. exact session_model_is_spec. Qed.
+Print Assumptions C02_session_model_is_spec.
+
+Example C02_session_nonvacuous :
+  Run.C02.c02_session_run Run.C02.c02_session_model_sel [0x4000; 0x8]
+    [VL [VZ 0; VZ 0]; VL [VZ 1; VZ 1; VZ 0]; VL [VZ 1; VZ 0; VZ 0x100000004008]; VL [VZ 0; VZ 1]] =
+  [VL [VZ 14; VZ 67]; VZ 0; VZ 0; VL [VZ 14; VZ 44]] /\
+  firstn 8 (skipn (Z.to_nat (8 * 0x92)) select8Lookup) = [1; 4; 7; 8; 8; 8; 8; 8].
+Proof. vm_compute. intuition congruence. Qed.
